@@ -102,6 +102,10 @@ def worker(unit, emit):
             rec(base.swapcase(), 'swapcase')
             rec(base + base, 'doubled')
             rec(base[::-1], 'reversed')
+        # string constants of the module (blacklisted letter pairs, type codes, court names) substituted for tokens of the base
+        if bi == 0:
+            for s_ in inputs.substitute_tokens(base, inputs.literals(mod, minlen=1, maxlen=12, cap=120))[:p['subst']]:
+                rec(s_, 'literal-substitution')
         # dictionary characters (letters and symbols the module's own source mentions) at every position of the first base,
         # at both ends of the others
         alpha = inputs.module_alphabet(mod)
@@ -175,7 +179,7 @@ def main():
     scripts2 = gen_scripts(chk, 'Gen_Inputs2R', simulate='num=%d' % (60 if quick else 1500), depth=3)
     p = {'seed': chk.seed, 'bases': 2 if quick else 12, 'k': 1 if quick else 3, 'thin': 0.35 if quick else 0,
          'long': [4301, 5000] if quick else [4301, 5000, 100000], 'opt_stride': 7 if quick else 2,
-         'opt_cap': 4 if quick else 12, 'regen_alphabet': '0123456789ABCDEFGHIJKLMNOPQRSTUVWXYZ' if not quick else '059ACEIKLOQSUXZ'}
+         'opt_cap': 4 if quick else 12, 'subst': 150 if quick else 1500, 'regen_alphabet': '0123456789ABCDEFGHIJKLMNOPQRSTUVWXYZ' if not quick else '059ACEIKLOQSUXZ'}
     gens = {}
     with open(os.path.join(lib.VERIF, 'bindings', 'checkdigit.json')) as fh:
         for key, row in json.load(fh)['rows'].items():
